@@ -216,6 +216,8 @@ def enum_inputs(con, variant, n, rng, limit, selfloops=False):
             items = [i for i in range(n) if rng.random() < 0.8]
             rng.shuffle(items)
             return {"kind": "seq", "items": items}
+        if kind == "nodemap":
+            return {"kind": "nodemap", "map": {i: sorted({i} | {j for j in range(n) if rng.random() < 0.3}) for i in range(n)}}
         return rng.choice(dom(kind))
     for _ in range(limit):
         m = {"k": n, "order": rng.sample(range(n), n), "interventions": []}
@@ -286,6 +288,10 @@ def exhaustive_inputs(con, variant, n, cap, rng):
             return [{"kind": "bool", "value": b} for b in (False, True)]
         if kind == "seq":
             return [{"kind": "seq", "items": list(p)} for r in range(n + 1) for p in itertools.permutations(range(n), r)]
+        if kind == "nodemap":
+            import random as _r
+            rr = _r.Random(n)
+            return [{"kind": "nodemap", "map": {i: sorted({i} | {j for j in range(n) if rr.random() < 0.35}) for i in range(n)}} for _ in range(12)]
         if kind in ("digraph", "ugraph"):
             pairs = [(i, j) for i in range(n) for j in range(n) if (i != j if kind == "digraph" else i < j)]
             return [{"kind": kind, "nodes": list(range(n)), "edges": [e for b, e in enumerate(pairs) if mk >> b & 1]}
